@@ -96,6 +96,14 @@ fn oracle_applies(base: &str, r: &str) -> bool {
     ba.is_some() && rs.is_none() && ra.is_none() && !bp.split('/').any(|seg| seg == "." || seg == "..")
 }
 
+fn safe_resolve(base: &BaseIri<String>, r: &str) -> String {
+    match std::panic::catch_unwind(|| base.resolve(r).map(|i| i.as_str().to_string())) {
+        Ok(Ok(s)) => s,
+        Ok(Err(e)) => format!("<resolve error {e}>"),
+        Err(_) => "<resolve panicked>".to_string(),
+    }
+}
+
 fn shortest_ref(base: &BaseIri<String>, iri: &str) -> Option<String> {
     let mut alpha: Vec<char> = iri.chars().collect();
     alpha.extend(['/', '.', '?', '#']);
@@ -106,7 +114,10 @@ fn shortest_ref(base: &BaseIri<String>, iri: &str) -> Option<String> {
         let mut next = vec![];
         for s in &frontier {
             if is_valid_iri_ref(s) {
-                if let Ok(r) = base.resolve(s.as_str()) { if r.as_str() == iri { return Some(s.clone()); } }
+                // (a resolver that panics on a valid reference is reported by family 3; here it simply does not count)
+                let r = std::panic::catch_unwind(|| base.resolve(s.as_str()).ok().map(|r| r.as_str().to_string())).unwrap_or(None);
+                if r.as_deref() == Some(iri) { return Some(s.clone()); }
+                if oracle_applies(base.as_str(), s) && rfc3986_resolve(base.as_str(), s) == iri { return Some(s.clone()); }
             }
             if s.chars().count() < 5 { for c in &alpha { let mut t = s.clone(); t.push(*c); next.push(t); } }
         }
@@ -116,6 +127,7 @@ fn shortest_ref(base: &BaseIri<String>, iri: &str) -> Option<String> {
 }
 
 fn main() {
+    std::panic::set_hook(Box::new(|_| {})); // panics of the code under check are caught and reported as mismatches
     let only_first = std::env::args().nth(1).map(|s| s == "first").unwrap_or(true);
     let prefixes = ["s:", "s://h"];
     let base_tails = ["", "/", "/a", "/a/", "/a/b", "/a/b/", "/a/b?q", "/a/b#f", "/a/b/c", "a", "a/b"];
@@ -143,7 +155,7 @@ fn main() {
                     Ok(Some(r)) => {
                         if !is_valid_iri_ref(&r) { Some(format!("result {:?} is not a valid IRI reference", r)) }
                         else {
-                            let back: String = base.resolve(r.as_str()).map(|i| i.as_str().to_string()).unwrap_or_else(|e| format!("<resolve error {e}>"));
+                            let back: String = safe_resolve(&base, r.as_str());
                             let ups = r.split('/').take_while(|s| *s == "..").count();
                             let rfc = rfc3986_resolve(&base_s, &r);
                             if oracle_applies(&base_s, &r) && rfc != iri_s { Some(format!("RFC 3986 5.2 resolves {:?} to {:?} (sophia_iri::resolve gives {:?})", r, rfc, back)) }
@@ -190,7 +202,7 @@ fn main() {
                         }
                     }
                     Ok(Some(r)) => {
-                        let back: String = base.resolve(r.as_str()).map(|i| i.as_str().to_string()).unwrap_or_else(|e| format!("<resolve error {e}>"));
+                        let back: String = safe_resolve(&base, r.as_str());
                         let ups = r.split('/').take_while(|s| *s == "..").count();
                         let rfc = rfc3986_resolve(base_s, &r);
                         if oracle_applies(base_s, &r) && rfc != iri_s { Some(format!("RFC 3986 5.2 resolves {:?} to {:?} (sophia_iri::resolve gives {:?})", r, rfc, back)) }
